@@ -12,7 +12,7 @@ import json
 import os
 
 from vlib.hostlist import (HL, Cli, WFGen, LIMIT, hx, unhx, parse_probe, parse_spec, same_answer, expand1, expand2,
-                           feat_big, feat_longplain, is_d17, gen_malformed, exhaustive, names_field, VERIF_CORPUS)
+                           feat_big, feat_longplain, is_d17, gen_malformed, exhaustive, names_field, VERIF_CORPUS, pinned_classes, cli_phase)
 
 LEVEL = "proof"
 PROPS = "PdshVerif.Props.C01"
@@ -32,9 +32,13 @@ MANIFEST = dict(
          "hand-written model tied to hostlist.c/opt.c/split.c by differential execution of the real sources built "
          "from /repo's working tree plus constants regenerated from /repo; glibc strtoul/snprintf/strncpy modelled "
          "not verified; numeric parts < 2^64; proved at TEXT level: hostlist_create = expand1 (tokenizer included), "
-         "the command line's first comma split is invisible for every text, the whole -w path = expand2; the -x and "
-         "WCOLL/^file contexts and look-up by name are correspondence/oracle only (pinned + generated cases on the "
-         "real pdsh / hostlist_find); harness, generators, gcc, ASan/UBSan trusted")
+         "the command line's first comma split is invisible for every text, the whole -w path = expand2 (the "
+         "hostrange_shift buffer hypothesis discharged for texts <= 10^15/16384 bytes); for EVERY byte string the "
+         "list hostlist_create returns and the one wcoll_expand leaves denote the expansions of the independent "
+         "string-level reader (Spec.classify hosts1 / hosts2); the -x and ^file contexts from the option texts and "
+         "look-up by name are proved by composition with C02's / C10's / C16's theorems inside their decidable "
+         "domains (names with digit tails <= 2^25) and exercised by pinned + generated cases on the real pdsh / "
+         "hostlist_find; harness, generators, gcc, ASan/UBSan trusted")
 
 
 def crash_signature(s, p):
@@ -166,6 +170,9 @@ def run(ctx):
         for s in load_corpus():
             dist["corpus"] += 1
             yield (s, None, "corpus")
+        for s in pinned_classes():
+            dist["pinned-classes"] = dist.get("pinned-classes", 0) + 1
+            yield (s, None, "pinned")
         n = 2500 if ctx.quick() else 40000
         for _ in range(n):
             words, s = gen.expr()
@@ -239,9 +246,13 @@ def run(ctx):
         if not ctx.replay:
             dist["generator"] = gen.dist
             nth_check(ctx, hl, nth_sample, dist)
+            ctx.log("nth done")
             find_check(ctx, hl, nth_sample, dist, cov)
-            cli_check(ctx, hl, dist, cov)
-            context_check(ctx, hl, dist, cov)
+            ctx.log("find done")
+            cli_phase(ctx, cli_check, ctx, hl, dist, cov)
+            ctx.log("cli done")
+            cli_phase(ctx, context_check, ctx, hl, dist, cov)
+            ctx.log("contexts done")
         else:
             rep = json.load(open(ctx.replay))
             if ctx_only is not None and ctx_only.get("origin") == "find":
